@@ -157,6 +157,12 @@ class ProgGen:
             s = self.unit_str(ci)
             if kw.get("case_sensitive") is False and rng.random() < 0.7:
                 s = s.upper() if rng.random() < 0.5 else s.lower()
+                prefixed = [q2[1] for q2 in self.pools[ci] if q2[0] in ("parse_units", "root", "base", "dim", "name")
+                            and isinstance(q2[1], str) and any(q2[1].startswith(pn) for pn in ("kilo", "milli", "hecto"))]
+                if prefixed and rng.random() < 0.5:
+                    # a prefixed unit used earlier, now spelled in another case
+                    s = rng.choice(prefixed)
+                    s = rng.choice([s.upper(), s.title(), s.swapcase()])
             return ["parse_units", s, kw]
         if r < 0.41:
             forms = [f"{x} * {self.unit_str(ci)}", f"{x} {self.unit_str(ci, False)} + 2 {self.unit_str(ci, False)}",
@@ -324,7 +330,22 @@ class HistoryWorld:
         pg = ProgGen(streams.get("program"), clients)
         size = kr.choice([6, 10, 16, 24, 40, 60]) if not use_default else kr.choice([6, 10, 16])
         sched = streams.get("schedule")
-        program = [pg.step(sched.randrange(nclients)) for _ in range(size)]
+        program = []
+        last_ask = {}
+        for _ in range(size):
+            ci = sched.randrange(nclients)
+            others = [c for c in last_ask if c != ci]
+            if others and sched.random() < 0.15 and not getattr(pg, "pending", None):
+                # the question another client has just asked, put to this client: the two registries spell
+                # it alike but mean different things - no table may be shared between them
+                q = last_ask[sched.choice(others)]
+                st = {"id": pg.sid(), "c": ci, "k": "ask", "q": q}
+            else:
+                st = pg.step(ci)
+                ci = st["c"]
+            if st["k"] == "ask":
+                last_ask[st["c"]] = st["q"]
+            program.append(st)
         fr = streams.get("faults")
         rates = {}
         if fr.random() < 0.7:
